@@ -148,6 +148,69 @@ def draw_value(rng, vk: str, shape):
     return vals if shape else vals[0]
 
 
+def item_refs(it):
+    """All ref dicts of a spec item (inputs, keyword inputs, dist args, at, transform argument)."""
+    out = list(it.get("inputs", [])) + list(it.get("kw", {}).values())
+    if "input" in it:
+        out.append(it["input"])
+    if "at" in it:
+        out.append(it["at"])
+    if it.get("dist"):
+        out += list(it["dist"]["args"].values())
+    if it.get("transform") and it["transform"].get("arg"):
+        out.append(it["transform"]["arg"])
+    return out
+
+
+def drop_item(spec, i):
+    """Spec without item i (refs re-indexed), or None if another item refers to it."""
+    for j, it in enumerate(spec):
+        if j == i:
+            continue
+        if any(r.get("i") == i for r in item_refs(it)):
+            return None
+        if it["k"] == "group" and i in it["members"].values():
+            return None
+        if it.get("tight") and i in (it["tight"]["parent"], it["tight"]["mid"]):
+            return None
+    new = _copy.deepcopy(spec)
+    del new[i]
+    for it in new:
+        for r in item_refs(it):
+            if "i" in r and r["i"] > i:
+                r["i"] -= 1
+        if it["k"] == "group":
+            it["members"] = {k: (j - 1 if j > i else j) for k, j in it["members"].items()}
+        if it.get("tight"):
+            for k in ("parent", "mid"):
+                if it["tight"][k] > i:
+                    it["tight"][k] -= 1
+    return new
+
+
+def item_names(it):
+    n = it["name"]
+    return {n, it.get("wrap"), f"{n}_value", f"{n}_var_value", f"{n}_log_prob", f"{n}_transformed", f"{n}_transformed_value"}
+
+
+def assignable_items(spec):
+    """(name, via, kind, shape) of everything a client may assign (transform-aware)."""
+    out = []
+    for it in spec:
+        if it.get("unnamed"):
+            continue
+        if it["k"] == "value":
+            out.append((it["name"], "node", it["vk"], it.get("shape", [])))
+        elif it["k"] == "var" and it.get("transform"):
+            tk = t_kind(it["transform"])
+            out.append((f"{it['name']}_transformed", "var", tk, it.get("shape", [])))
+            out.append((f"{it['name']}_transformed_value", "node", tk, it.get("shape", [])))
+        elif it["k"] == "var":
+            out.append((it["name"], "var", it["vk"], it.get("shape", [])))
+            out.append((f"{it['name']}_value", "node", it["vk"], it.get("shape", [])))
+    return out
+
+
 def compatible(have: str, want: str) -> bool:
     if want == "real":
         return have in ("real", "pos", "unit", "count", "binary")
@@ -163,13 +226,15 @@ def compatible(have: str, want: str) -> bool:
 
 def gen_spec(rng, n_items=(4, 14), p_dist=0.5, p_transient=0.3, p_vec=0.35, seeded_p=0.0,
              hier=False, families=None, allow_pair=True, allow_group=True, allow_bare=True,
-             p_transform=0.0, transforms=None, roles=True) -> list[dict]:
+             p_transform=0.0, transforms=None, roles=True, prefixes=("n", "v")) -> list[dict]:
+    NP, VP = prefixes
     fams = families or list(FAMILIES)
     n = rng.randint(*n_items)
     items: list[dict] = []
 
-    def pick_ref(want: str, shape_ok=None, prefer_var=False, below=None):
+    def pick_ref(want: str, shape_ok=None, prefer_var=False, below=None, scalar_only=False):
         cands = [i for i, it in enumerate(items) if it.get("vk") and compatible(it["vk"], want)
+                 and not (scalar_only and it.get("shape") == [3])
                  and it["k"] in ("value", "var", "calc", "ident") and (below is None or i < below)
                  # positive / unit-interval parameters never read a *distributed* variable directly
                  # (only through bounded primitives): simulated hierarchies stay in ranges where
@@ -191,7 +256,7 @@ def gen_spec(rng, n_items=(4, 14), p_dist=0.5, p_transient=0.3, p_vec=0.35, seed
         have_inputs = len(items) >= 1
         if not have_inputs or r < 0.18:
             vk = rng.choice(["real", "real", "pos", "unit"])
-            items.append({"k": "value", "name": f"n{idx}", "val": draw_value(rng, vk, shape), "vk": vk, "shape": shape})
+            items.append({"k": "value", "name": f"{NP}{idx}", "val": draw_value(rng, vk, shape), "vk": vk, "shape": shape})
         elif r < 0.50:
             # variable, strong, possibly with a distribution
             dist = None
@@ -212,10 +277,11 @@ def gen_spec(rng, n_items=(4, 14), p_dist=0.5, p_transient=0.3, p_vec=0.35, seed
                 role = rng.choice(["obs", "param", "param", None]) if vk not in ("binary", "count") else rng.choice(["obs", "obs", None])
             elif roles and rng.random() < 0.2:
                 role = rng.choice(["obs", "param"])
-            it = {"k": "var", "name": f"v{idx}", "val": draw_value(rng, vk, shape), "vk": vk, "shape": shape,
+            it = {"k": "var", "name": f"{VP}{idx}", "val": draw_value(rng, vk, shape), "vk": vk, "shape": shape,
                   "role": role, "dist": dist, "transform": None}
-            if dist is not None and transforms and vk in ("pos", "unit") and rng.random() < p_transform and not dist["transient"]:
-                it["transform"] = rng.choice([t for t in transforms if TRANSFORM_OK[t](dist["fam"], vk)] or [None])
+            if dist is not None and transforms and rng.random() < p_transform and not dist["transient"] and vk in ("pos", "unit", "real"):
+                # a bijector argument must not be larger than the variable it transforms
+                it["transform"] = gen_transform(rng, dist["fam"], vk, transforms, lambda want: pick_ref(want, scalar_only=(shape == [])))
             items.append(it)
         elif r < 0.86:
             fn = rng.choice(["tanh_lin", "tanh_lin", "lin", "prod", "exp_tanh", "exp_tanh", "sigm", "meanv"] + (["pair"] if allow_pair else []))
@@ -238,25 +304,25 @@ def gen_spec(rng, n_items=(4, 14), p_dist=0.5, p_transient=0.3, p_vec=0.35, seed
             if seeded_p and fn in ("lin", "tanh_lin") and rng.random() < seeded_p:
                 fn, seeded = "seeded", True
             mode = "transient" if (rng.random() < p_transient and not seeded) else "cached"
-            wrap = f"v{idx}" if (fn != "pair" and rng.random() < 0.35) else None
+            wrap = f"{VP}{idx}" if (fn != "pair" and rng.random() < 0.35) else None
             sh = [3] if any(("i" in r_ and items[r_["i"]].get("shape") == [3]) for r_ in inputs) and fn not in ("meanv",) else []
-            items.append({"k": "calc", "name": f"n{idx}", "fn": fn, "coef": coef, "inputs": inputs, "mode": mode,
+            items.append({"k": "calc", "name": f"{NP}{idx}", "fn": fn, "coef": coef, "inputs": inputs, "mode": mode,
                           "wrap": wrap, "vk": OUT_KIND[fn], "shape": sh, "seeded": seeded})
         elif r < 0.91:
             cands = [i for i, it in enumerate(items) if it.get("vk") not in (None, "pair") and it["k"] in ("value", "var", "calc")]
             if cands:
                 j = rng.choice(cands)
-                items.append({"k": "ident", "name": f"n{idx}", "input": {"i": j, "via": "var" if items[j]["k"] == "var" else "node"},
+                items.append({"k": "ident", "name": f"{NP}{idx}", "input": {"i": j, "via": "var" if items[j]["k"] == "var" else "node"},
                               "vk": items[j]["vk"], "shape": items[j].get("shape", [])})
             else:
-                items.append({"k": "value", "name": f"n{idx}", "val": draw_value(rng, "real", shape), "vk": "real", "shape": shape})
+                items.append({"k": "value", "name": f"{NP}{idx}", "val": draw_value(rng, "real", shape), "vk": "real", "shape": shape})
         elif r < 0.96 and allow_group:
             inputs = [pick_ref("real") for _ in range(rng.randint(1, 2))]
             kw = {f"k{j}": pick_ref("real") for j in range(rng.randint(0, 2))}
-            items.append({"k": "igroup", "name": f"n{idx}", "inputs": inputs, "kw": kw, "vk": None})
+            items.append({"k": "igroup", "name": f"{NP}{idx}", "inputs": inputs, "kw": kw, "vk": None})
             coef = [round(rng.uniform(-0.7, 0.7), 3) for _ in range(len(inputs) + len(kw) + 1)]
             sh = [3] if any(("i" in r_ and items[r_["i"]].get("shape") == [3]) for r_ in inputs + list(kw.values())) else []
-            items.append({"k": "calc", "name": f"n{idx}g", "fn": "group_lin", "coef": coef,
+            items.append({"k": "calc", "name": f"{NP}{idx}g", "fn": "group_lin", "coef": coef,
                           "inputs": [{"i": len(items) - 1, "via": "node"}], "mode": "cached" if rng.random() < 0.7 else "transient",
                           "wrap": None, "vk": "real", "shape": sh, "seeded": False})
         elif allow_bare:
@@ -268,23 +334,69 @@ def gen_spec(rng, n_items=(4, 14), p_dist=0.5, p_transient=0.3, p_vec=0.35, seed
                 # parameters must not depend on the evaluation point (liesel's simulation graph
                 # reverses the dist -> at edge and would contain a cycle)
                 args = {p: pick_ref(k, below=j) for p, k in F["params"].items()}
-                items.append({"k": "baredist", "name": f"n{idx}", "at": {"i": j, "via": "node"},
+                items.append({"k": "baredist", "name": f"{NP}{idx}", "at": {"i": j, "via": "node"},
                               "dist": {"fam": fam, "args": args, "transient": False, "per_obs": rng.random() < 0.6}, "vk": None})
             else:
-                items.append({"k": "value", "name": f"n{idx}", "val": draw_value(rng, "real", shape), "vk": "real", "shape": shape})
+                items.append({"k": "value", "name": f"{NP}{idx}", "val": draw_value(rng, "real", shape), "vk": "real", "shape": shape})
         else:
-            items.append({"k": "value", "name": f"n{idx}", "val": draw_value(rng, "real", shape), "vk": "real", "shape": shape})
+            items.append({"k": "value", "name": f"{NP}{idx}", "val": draw_value(rng, "real", shape), "vk": "real", "shape": shape})
     return items
 
 
-TRANSFORM_OK = {
-    "exp_inst": lambda fam, vk: vk == "pos",
-    "softplus_inst": lambda fam, vk: vk == "pos",
-    "sigmoid_inst": lambda fam, vk: vk == "unit",
-    "exp_cls_scale": lambda fam, vk: vk == "pos",
-    "default": lambda fam, vk: fam in ("gamma", "exponential", "beta", "halfnormal", "lognormal", "invgamma"),
-    "auto": lambda fam, vk: fam in ("gamma", "exponential", "beta", "halfnormal", "lognormal", "invgamma"),
-}
+HOWS = ["instance", "class", "default", "auto", "gb_instance", "gb_class", "gb_default"]
+HAS_DEFAULT = ("gamma", "exponential", "beta", "halfnormal", "lognormal", "invgamma")
+
+
+def gen_transform(rng, fam, vk, hows, pick_ref):
+    """A (how, bijector, argument) triple admissible for a variable of kind vk / family fam."""
+    opts = []
+    for how in hows:
+        if how in ("default", "auto", "gb_default"):
+            if fam in HAS_DEFAULT:
+                opts.append((how, None))
+        elif how in ("instance", "gb_instance"):
+            if vk == "pos":
+                opts += [(how, "exp"), (how, "softplus")]
+            elif vk == "unit":
+                opts.append((how, "sigmoid"))
+        else:  # class with (possibly model-dependent) arguments
+            if vk == "pos":
+                opts += [(how, "scale"), (how, "softplus_h")]
+            elif vk == "real":
+                opts.append((how, "shift"))
+    if not opts:
+        return None
+    how, bij = rng.choice(opts)
+    arg = None
+    if bij in ("scale", "softplus_h"):
+        arg = pick_ref("pos")
+    elif bij == "shift":
+        arg = pick_ref("real")
+    return {"how": how, "bij": bij, "arg": arg}
+
+
+def t_kind(tr) -> str:
+    """Kind of values the new (transformed) variable may take."""
+    return "pos" if tr["bij"] == "scale" else "real"
+
+
+def jnp_bijector(tr, arg_value=None):
+    if tr["bij"] == "exp":
+        return tfb.Exp()
+    if tr["bij"] == "softplus":
+        return tfb.Softplus()
+    if tr["bij"] == "sigmoid":
+        return tfb.Sigmoid()
+    if tr["bij"] == "scale":
+        return tfb.Scale(scale=arg_value)
+    if tr["bij"] == "softplus_h":
+        return tfb.Softplus(hinge_softness=arg_value)
+    if tr["bij"] == "shift":
+        return tfb.Shift(shift=arg_value)
+    raise ValueError(tr)
+
+
+BIJ_CLASS = {"scale": (tfb.Scale, "scale"), "softplus_h": (tfb.Softplus, "hinge_softness"), "shift": (tfb.Shift, "shift")}
 
 
 # ------------------------------------------------------------------ building the real objects
@@ -321,8 +433,36 @@ def make_dist(b: Built, name: str, D: dict, unnamed=False) -> Dist:
     return d
 
 
+def apply_transform(b: Built, v: Var, tr: dict):
+    import warnings
+
+    how = tr["how"]
+    if how == "auto":
+        v.auto_transform = True
+        return None
+    arg = _resolve(b, tr["arg"]) if tr.get("arg") else None
+    with warnings.catch_warnings():
+        warnings.simplefilter("ignore")
+        if how == "instance":
+            return v.transform(jnp_bijector(tr))
+        if how == "class":
+            cls, kw = BIJ_CLASS[tr["bij"]]
+            return v.transform(cls, **{kw: arg})
+        if how == "default":
+            return v.transform(None)
+        if how == "gb_instance":
+            return b.gb.transform(v, jnp_bijector(tr))
+        if how == "gb_class":
+            cls, kw = BIJ_CLASS[tr["bij"]]
+            return b.gb.transform(v, cls, **{kw: arg})
+        if how == "gb_default":
+            return b.gb.transform(v, None)
+    raise ValueError(how)
+
+
 def construct(spec: list[dict], names=True) -> Built:
     b = Built()
+    b.gb = lsl.GraphBuilder()
     for i, it in enumerate(spec):
         k = it["k"]
         un = bool(it.get("unnamed"))
@@ -338,6 +478,16 @@ def construct(spec: list[dict], names=True) -> Built:
                 v.parameter = True
             b.obj[i] = v
             b.node[i] = v.value_node
+            tr = it.get("transform")
+            if tr:
+                if tr["how"].startswith("gb_"):
+                    # the deprecated builder method names unnamed nodes right away: everything
+                    # made so far must already be in the builder for those names to be unique
+                    for j in range(i):
+                        if spec[j]["k"] != "group":
+                            b.gb.add(b.obj[j])
+                apply_transform(b, v, tr)
+                b.node[i] = v.value_node
         elif k == "calc":
             f = CountingFn(it["name"], it["fn"], it["coef"])
             b.fns[it["name"]] = f
@@ -394,7 +544,7 @@ def reset_counters(b: Built):
 
 def build_model(spec, copy=False):
     b = construct(spec)
-    gb = lsl.GraphBuilder()
+    gb = b.gb
     for i, it in enumerate(spec):
         if it["k"] != "group":
             gb.add(b.obj[i])
@@ -423,6 +573,13 @@ def node_inputs_from_spec(spec) -> dict[str, list[str]]:
         k = it["k"]
         if k == "value":
             rel[it["name"]] = []
+        elif k == "var" and it.get("transform"):
+            # the original variable becomes weak; its value node and the new distribution node
+            # (whose inputs include builder-made InputGroups) are taken from the real structure
+            tn = f"{it['name']}_transformed"
+            rel[f"{tn}_value"] = []
+            rel[f"{tn}_var_value"] = [f"{tn}_value"]
+            rel[f"{it['name']}_var_value"] = [f"{it['name']}_value"]
         elif k == "var":
             rel[f"{it['name']}_value"] = []
             rel[f"{it['name']}_var_value"] = [f"{it['name']}_value"]
@@ -462,9 +619,25 @@ class RefGraph:
         for it in spec:
             if it["k"] == "value":
                 self.inputs[it["name"]] = jnp.asarray(it["val"], jnp.float32)
+            elif it["k"] == "var" and it.get("transform"):
+                # the initial unconstrained value is produced by liesel; it is read from the
+                # model by sync_transformed() and checked against the closed form by C14
+                self.inputs[f"{it['name']}_transformed_value"] = None
             elif it["k"] == "var":
                 self.inputs[f"{it['name']}_value"] = jnp.asarray(it["val"], jnp.float32)
         self.seeds: dict[str, Any] = dict(seeds or {})
+        self.hooks: dict[str, Any] = {}
+
+    def sync_transformed(self, model):
+        for it in self.spec:
+            if it["k"] == "var" and it.get("transform"):
+                node = model.nodes[f"{it['name']}_value"]
+                self.hooks[it["name"]] = (lambda val, node=node: eval_node_from(node, val))
+        for it in self.spec:
+            if it["k"] == "var" and it.get("transform"):
+                key = f"{it['name']}_transformed_value"
+                if self.inputs.get(key) is None:
+                    self.inputs[key] = model.nodes[key].value
 
     def input_names(self):
         return list(self.inputs)
@@ -481,6 +654,10 @@ class RefGraph:
                 return val[f"{it['name']}_value"]
             return val[it["name"]]
 
+        def dist_obj(D):
+            F = FAMILIES[D["fam"]]
+            return F["tfd"](**{p: ref_val(r) for p, r in D["args"].items()})
+
         def dist_val(D, at):
             F = FAMILIES[D["fam"]]
             d = F["tfd"](**{p: ref_val(r) for p, r in D["args"].items()})
@@ -493,6 +670,24 @@ class RefGraph:
             k = it["k"]
             if k == "value":
                 val[it["name"]] = self.inputs[it["name"]]
+            elif k == "var" and it.get("transform"):
+                tr = it["transform"]
+                tn = f"{it['name']}_transformed"
+                t = self.inputs[f"{tn}_value"]
+                val[f"{tn}_value"] = t
+                val[f"{tn}_var_value"] = t
+                hook = self.hooks.get(it["name"])
+                if hook is not None:
+                    # from scratch through the node's own function on reference inputs (the
+                    # entry points differ in the order of float32 operations, so bit-exactness
+                    # with a hand-written forward map cannot be demanded)
+                    x = hook(val)
+                elif tr["bij"] is None:
+                    x = dist_obj(it["dist"]).experimental_default_event_space_bijector().forward(t)
+                else:
+                    x = jnp_bijector(tr, ref_val(tr["arg"]) if tr.get("arg") else None).forward(t)
+                val[f"{it['name']}_value"] = x
+                val[f"{it['name']}_var_value"] = x
             elif k == "var":
                 v = self.inputs[f"{it['name']}_value"]
                 val[f"{it['name']}_value"] = v
@@ -517,23 +712,50 @@ class RefGraph:
         return val
 
 
-def same_value(a, b) -> bool:
-    """Bit-exact equality of two node values (arrays, dicts of arrays, ArgGroups)."""
+def eval_node_from(node, val: dict):
+    """Value of a model node recomputed from scratch: reference values where the spec knows the
+    node, otherwise recursively through the node's own function (no cache is read except for
+    hidden constant Value nodes)."""
+    if node.name in val:
+        return val[node.name]
+    if isinstance(node, Value):
+        return node.value
+    ins = [eval_node_from(n, val) for n in node.inputs]
+    kw = {k: eval_node_from(n, val) for k, n in node.kwinputs.items()}
+    if isinstance(node, InputGroup):
+        return ArgGroup(ins, kw)
+    if isinstance(node, Dist):
+        lp = node.distribution(*ins, **kw).log_prob(eval_node_from(node.at, val))
+        if not node.per_obs and hasattr(lp, "sum"):
+            lp = lp.sum()
+        return lp
+    if isinstance(node, Calc):
+        return node.function(*ins, **kw)
+    raise TypeError(type(node))
+
+
+def same_value(a, b, tol=None) -> bool:
+    """Equality of two node values (arrays, dicts of arrays, ArgGroups): bit-exact, or within a
+    relative/absolute tolerance `tol` where bit-exactness cannot be demanded."""
     if isinstance(a, ArgGroup) or isinstance(b, ArgGroup):
         if not (isinstance(a, ArgGroup) and isinstance(b, ArgGroup)):
             return False
-        return same_value(list(a.args), list(b.args)) and same_value(dict(a.kwargs), dict(b.kwargs))
+        return same_value(list(a.args), list(b.args), tol) and same_value(dict(a.kwargs), dict(b.kwargs), tol)
     if isinstance(a, dict) or isinstance(b, dict):
         if not (isinstance(a, dict) and isinstance(b, dict)) or sorted(a) != sorted(b):
             return False
-        return all(same_value(a[k], b[k]) for k in a)
+        return all(same_value(a[k], b[k], tol) for k in a)
     if isinstance(a, (list, tuple)) or isinstance(b, (list, tuple)):
         if not isinstance(a, (list, tuple)) or not isinstance(b, (list, tuple)) or len(a) != len(b):
             return False
-        return all(same_value(x, y) for x, y in zip(a, b))
+        return all(same_value(x, y, tol) for x, y in zip(a, b))
     if a is None or b is None:
         return a is None and b is None
     x, y = np.asarray(a), np.asarray(b)
+    if tol is not None:
+        return x.dtype == y.dtype and x.shape == y.shape and bool(
+            np.allclose(x.astype(np.float64), y.astype(np.float64), rtol=tol, atol=tol, equal_nan=True)
+        )
     return x.dtype == y.dtype and x.shape == y.shape and x.tobytes() == y.tobytes()
 
 
@@ -643,6 +865,7 @@ class ModelSim:
         self.V = V
         self.log = log
         self.ref = RefGraph(spec)
+        self.ref.sync_transformed(model)
         # node-level ancestor relation: from the spec, completed with the real structure for
         # nodes the spec does not describe (_model_* totals, hidden constants)
         self.rel = node_inputs_from_spec(spec)
@@ -662,6 +885,10 @@ class ModelSim:
         self.stale: set[str] = set()
         self.snaps: list = []
         self.auto = True
+        # TFP bijectors cache forward/inverse pairs by object identity, so b(b^-1(x)) may return
+        # x itself instead of the recomputed value: with transformed variables in the program a
+        # from-scratch evaluation is reproducible only up to float32 rounding
+        self.tol = 5e-6 if any(it.get("transform") for it in spec) else None
         self.counters = {"ops": 0}
         self.f1_fired = 0
         self.seed_names = [n for n in model.nodes if n.startswith("_model_") and n.endswith("_seed")]
@@ -695,7 +922,7 @@ class ModelSim:
                 if name not in refv:
                     continue
                 got = node.value
-                if not same_value(got, refv[name]):
+                if not same_value(got, refv[name], self.tol):
                     self.V.add("coherence", f"{type(node).__name__}/{where.split(':')[0]}",
                                f"{where}: node {name} ({type(node).__name__}) reports up to date but holds {show(got)}; "
                                f"from-scratch value is {show(refv[name])}")
